@@ -620,6 +620,102 @@ def r_getmut(body, skip):
         pos = mo.start() + len(new)
 
 
+def r_entry(body):
+    """match M.entry(K) { Entry::Occupied(mut E) => B1, Entry::Vacant(V) => B2 }
+         ->  { let ekN_ = K; if M.contains_key(&ekN_) { let E = M.get_mut(&ekN_).unwrap(); B1[E.get_mut() := E] } else { B2[V.insert(X) := M.insert(ekN_, X)] } }
+    (definition of the map Entry API in terms of contains_key / get_mut / insert; innermost matches first, so that a receiver written through an
+    outer occupied entry is rewritten with it).  Only `get_mut()` on the occupied entry and `insert(..)` on the vacant one are supported.  (R-entry)"""
+    log = []
+    n = 0
+    while True:
+        m = code_mask(body)
+        hits = [x for x in re.finditer(r"\bmatch\s+", body) if m[x.start()]]
+        pick = None
+        for x in reversed(hits):        # innermost / last first
+            k = x.end()
+            # scrutinee up to the opening brace of the match
+            d = 0
+            j = k
+            while j < len(body):
+                if m[j]:
+                    if body[j] in "([":
+                        d += 1
+                    elif body[j] in ")]":
+                        d -= 1
+                    elif body[j] == "{" and d == 0:
+                        break
+                j += 1
+            scrut = body[k:j].strip()
+            em = re.match(r"^(.*)\.entry\((.*)\)$", scrut, re.S)
+            if not em:
+                continue
+            close = match_close(body, m, j)
+            arms = body[j + 1:close]
+            am = re.match(r"\s*Entry::Occupied\(\s*(?:mut\s+)?(\w+)\s*\)\s*=>\s*\{", arms)
+            if not am:
+                continue
+            pick = (x, j, close, em.group(1).strip(), em.group(2).strip(), arms, am)
+            break
+        if pick is None:
+            return body, log
+        x, j, close, recv, key, arms, am = pick
+        am_mask = code_mask(arms)
+        b1_open = am.end() - 1
+        b1_close = match_close(arms, am_mask, b1_open)
+        rest = arms[b1_close + 1:]
+        vm = re.match(r"\s*,?\s*Entry::Vacant\(\s*(\w+)\s*\)\s*=>\s*\{", rest)
+        if not vm:
+            raise Unsupported("R-entry: `Entry::Vacant(v) => { .. }` arm expected")
+        rmask = code_mask(rest)
+        b2_open = vm.end() - 1
+        b2_close = match_close(rest, rmask, b2_open)
+        if rest[b2_close + 1:].strip(" \n\t,") != "":
+            raise Unsupported("R-entry: unexpected text after the vacant arm")
+        e_name, v_name = am.group(1), vm.group(1)
+        b1 = arms[b1_open + 1:b1_close]
+        b2 = rest[b2_open + 1:b2_close]
+        if re.search(r"\b%s\.(?!get_mut\(\))" % re.escape(e_name), b1):
+            raise Unsupported("R-entry: only `.get_mut()` is supported on the occupied entry")
+        b1 = re.sub(r"\b%s\.get_mut\(\)" % re.escape(e_name), e_name, b1)
+        if re.search(r"\b%s\.(?!insert\()" % re.escape(v_name), b2) or len(re.findall(r"\b%s\.insert\(" % re.escape(v_name), b2)) != 1:
+            raise Unsupported("R-entry: exactly one `.insert(..)` is supported on the vacant entry")
+        ek = "ek%s_" % ("" if n == 0 else str(n))
+        b2 = re.sub(r"\b%s\.insert\(" % re.escape(v_name), "%s.insert(%s, " % (recv, ek), b2)
+        new = "{ let %s = %s; if %s.contains_key(&%s) { let %s = %s.get_mut(&%s).unwrap(); %s } else { %s } }" % (ek, key, recv, ek, e_name, recv, ek, b1, b2)
+        log.append(("R-entry", norm_ws(body[x.start():j])[:160], norm_ws(new[:new.find(".unwrap();") + 10])[:240]))
+        body = body[:x.start()] + new + body[close + 1:]
+        n += 1
+
+
+def r_arrayfor(body):
+    """for X in &[A, B, ..] BLOCK  ->  { let X = &A; BLOCK } { let X = &B; BLOCK } ..   (a loop over a literal array is its body once per element, in order;
+    `break` / `continue` in BLOCK are refused).  (R-arrayfor)"""
+    log = []
+    while True:
+        m = code_mask(body)
+        mo = None
+        for x in re.finditer(r"\bfor\s+(\w+)\s+in\s+&\[", body):
+            if m[x.start()]:
+                mo = x
+                break
+        if mo is None:
+            return body, log
+        ac = match_close(body, m, mo.end() - 1)
+        elems = [e.strip() for e in _split_top_commas(body[mo.end():ac]) if e.strip()]
+        k = ac + 1
+        while body[k] in " \t\n":
+            k += 1
+        if body[k] != "{":
+            raise Unsupported("R-arrayfor: loop body expected")
+        be = match_close(body, m, k)
+        blk = body[k:be + 1]
+        if re.search(r"\b(break|continue)\b", blk):
+            raise Unsupported("R-arrayfor: break / continue in the body")
+        new = " ".join("{ let %s = &%s; %s }" % (mo.group(1), e, blk) for e in elems)
+        log.append(("R-arrayfor", norm_ws(body[mo.start():k])[:160], "body once per element: " + ", ".join(elems)))
+        body = body[:mo.start()] + new + body[be + 1:]
+
+
 def r_setappend(body, recv):
     """RECV.append(&mut E)  ->  set_append(&mut RECV, E)   for a BTreeSet receiver: vstd does not specify BTreeSet::append; the prelude's
     `set_append` carries std's documented semantics (union; the argument is drained).  (R-setappend)"""
@@ -1763,6 +1859,12 @@ def emit_fn(f, udir, unit_props, recs, log_global):
             log += l
         if "continue" in rewrites:
             body, l = r_continue(body)
+            log += l
+        if "entry" in rewrites:
+            body, l = r_entry(body)
+            log += l
+        if "arrayfor" in rewrites:
+            body, l = r_arrayfor(body)
             log += l
         if "genrange" in rewrites:
             body, l = r_genrange(body)
